@@ -22,7 +22,7 @@ VARIABLE c
 RECURSIVE RunVM(_, _)
 RunVM(v, fuel) == IF v.status # "run" \/ fuel = 0 THEN v ELSE RunVM(Step(v, NoHint), fuel - 1)
 
-TsEntry(t) == [k |-> KTimestamp, t |-> "int", v |-> t.mag, neg |-> t.neg]
+TsEntry(t) == [k |-> KTimestamp, t |-> "int", v |-> t.mag, neg |-> t.neg, items |-> <<>>]
 TimeCfg(script, t, now, tsthr, ethr, auth) ==
     [BaseCfg EXCEPT !.scripts = <<script>>, !.auth = auth, !.sc = <<TsEntry(t)>>, !.now = now.mag,
                     !.flags = [k \in {FStr("ts_threshold"), FStr("epoch_threshold")} |->
